@@ -2200,6 +2200,8 @@ package sdf
 //@   atentry 0 a == pv.vertex && b == v.vertex && mid == a.Add(b).MulScalar(0.5) && c == mid.Add(n.MulScalar(dCenter))
 //@   ensures [a-vertex-that-is-not-an-arc-end-leaves-the-list-untouched] !r ==> len(p.vlist) == n0
 //@   ensures [every-vertex-where-it-was] forall k int :: !r && 0 <= k && k < n0 ==> p.vlist[k].vertex == old(p.vlist[k].vertex) && p.vlist[k].relative == old(p.vlist[k].relative) && p.vlist[k].facets == old(p.vlist[k].facets) && p.vlist[k].radius == old(p.vlist[k].radius)
+//@   ensures [marks-elsewhere-untouched] forall k int :: !r && 0 <= k && k < n0 && k != i ==> p.vlist[k].vtype == old(p.vlist[k].vtype)
+//@   ensures [a-vertex-that-is-not-an-arc-end-keeps-its-mark] !wasarc ==> p.vlist[i].vtype == old(p.vlist[i].vtype)
 //@   ensures [only-marked-vertices-become-arcs] r ==> wasarc
 //@   ensures [facets-minus-one-points-are-inserted-before-the-arc-end] r ==> len(p.vlist) == n0 + f - 1
 //@   ensures [vertices-before-kept] forall k int :: r && 0 <= k && k < i ==> p.vlist[k] == old(p.vlist[k])
@@ -2731,4 +2733,23 @@ package sdf
 //@   let dist2 = p.Sub(q).Length2()
 //@   generalize dist2
 //@   ensures [one-lipschitz-whatever-the-grid-size] !isnil(r) ==> sq(dp - dq) <= p.Sub(q).Length2()
+//@ end
+
+// createArcs: whatever the order in which the passes meet them, no arc mark is left when it
+// returns (partial correctness; termination is not decided). arcVertex is seen through its
+// arc-structure contract.
+//@ func Polygon.createArcs
+//@   property C17
+//@   id no-arc-mark-is-left
+//@   summarise Polygon.arcVertex arc-structure
+//@   requires len(p.vlist) >= 2
+//@   requires forall k int :: 0 <= k && k < len(p.vlist) && p.vlist[k].vtype == pvArc ==> p.vlist[k].facets >= 1
+//@   invariant 0 len(p.vlist) >= 2
+//@   invariant 0 forall k int :: 0 <= k && k < len(p.vlist) && p.vlist[k].vtype == pvArc ==> p.vlist[k].facets >= 1
+//@   invariant 0 forall k int :: done && 0 <= k && k < len(p.vlist) ==> p.vlist[k].vtype != pvArc
+//@   invariant 1 rangeindex >= -1 && rangeindex < rangelen && rangelen <= len(p.vlist) && len(p.vlist) >= 2
+//@   invariant 1 forall k int :: 0 <= k && k < len(p.vlist) && p.vlist[k].vtype == pvArc ==> p.vlist[k].facets >= 1
+//@   invariant 1 done ==> len(p.vlist) == rangelen
+//@   invariant 1 forall k int :: done && 0 <= k && k <= rangeindex ==> p.vlist[k].vtype != pvArc
+//@   ensures [every-arc-mark-has-been-expanded] forall k int :: 0 <= k && k < len(p.vlist) ==> p.vlist[k].vtype != pvArc
 //@ end
